@@ -24,10 +24,11 @@ type Clause struct {
 }
 
 type LoopContract struct {
-	Invariants []*Clause
-	Decreases  *Clause
-	Modifies   *Clause
-	Unroll     int
+	ExitAsserts []*Clause
+	Invariants  []*Clause
+	Decreases   *Clause
+	Modifies    *Clause
+	Unroll      int
 }
 
 type FuncContract struct {
@@ -320,6 +321,12 @@ func (cs *ContractSet) LoadFile(path string, goFile bool, pkg string) error {
 					return errf(rc, "%v", err)
 				}
 				lc.Invariants = append(lc.Invariants, &Clause{Kind: "invariant", Expr: e, Text: text, Tags: tags, Label: label, File: rc.file, Line: rc.line})
+			case "exit-assert":
+				e, err := ParseExpr(text)
+				if err != nil {
+					return errf(rc, "%v", err)
+				}
+				lc.ExitAsserts = append(lc.ExitAsserts, &Clause{Kind: "assert", Expr: e, Text: text, Tags: tags, Label: label, File: rc.file, Line: rc.line})
 			case "decreases":
 				es, err := parseExprList(text)
 				if err != nil {
